@@ -12,6 +12,7 @@ import (
 	"fmt"
 	"os"
 	"os/exec"
+	"runtime/pprof"
 	"sort"
 	"strings"
 	"sync"
@@ -240,6 +241,12 @@ func WorkerMain(scenarios map[string]*Scenario) {
 			res = &JobResult{Job: job, Err: "unknown scenario " + job.Scenario}
 		} else {
 			res = RunJob(sc, job)
+		}
+		if pf := os.Getenv("VERIF_HEAPPROF"); pf != "" {
+			if f, err := os.Create(pf); err == nil {
+				pprof.Lookup("heap").WriteTo(f, 0)
+				f.Close()
+			}
 		}
 		b, _ := json.Marshal(res)
 		out.Write(b)
